@@ -440,6 +440,9 @@ func (it *Interp) concretize(v Int, max int, why string) uint64 {
 		// the domain is sampled: make sure the three smallest feasible values are among the samples (small counts
 		// and sizes are the ones for which a structure fits into a small image, so that its loops and recursions
 		// are entered); each is found by bisection on an upper bound
+		if it.sizeSampling && len(vals) > 8 {
+			vals = vals[:8] // a sampled domain: 8 values as the solver returned them, plus the 3 smallest
+		}
 		have := map[int]bool{}
 		for _, x := range vals {
 			have[x] = true
@@ -457,7 +460,7 @@ func (it *Interp) concretize(v Int, max int, why string) uint64 {
 			lower = it.ctx.Cmp("bvugt", v.T, it.ctx.BV(w, m))
 		}
 		if it.sizeSampling {
-			it.res.Bounds["size_fields_sampled_at_most"] = max + 3
+			it.res.Bounds["size_fields_sampled_at_most"] = 8 + 3
 		} else {
 			it.noteIncomplete(fmt.Sprintf("concretisation of %s kept %d values, more are feasible", why, len(vals)))
 		}
